@@ -22,8 +22,14 @@ type solverSpec struct {
 var solvers = []solverSpec{
 	{"z3-5.1.0", func(t int, f string) []string { return []string{"z3-new", fmt.Sprintf("-T:%d", t), f} }},
 	{"cvc5-1.0", func(t int, f string) []string {
-		return []string{"cvc5", "--lang=smt2", fmt.Sprintf("--tlimit=%d", t*1000), "--fmf-fun", f}
+		return []string{"cvc5", "--lang=smt2", fmt.Sprintf("--tlimit=%d", t*1000), f}
 	}},
+	// a second z3 5.1.0 run with another seed: quantifier-instantiation order is seed-sensitive
+	{"z3-5.1.0/seed3", func(t int, f string) []string {
+		return []string{"z3-new", fmt.Sprintf("-T:%d", t), "smt.random_seed=3", "sat.random_seed=3", f}
+	}},
+	// z3 4.8.12 rarely wins a race here (it does not terminate on many define-fun-rec goals);
+	// it stays last so that the quick tier can leave it out
 	{"z3-4.8.12", func(t int, f string) []string { return []string{"/usr/bin/z3", fmt.Sprintf("-T:%d", t), f} }},
 }
 
